@@ -14,10 +14,10 @@
    What is NOT a theorem here (claimed by correspondence only, see props/C12.json): the JSON
    codecs (decode/encode stability, which JSON leaf feeds which field), EIP-712 and BLS signature
    verification, the key stores. *)
-From Coq Require Import List NArith Bool String.
-From Charon Require Import Codec.SszTree Codec.HashProg Codec.HashProgFacts Codec.ClusterHash gen.HashProgs.
 From mathcomp Require Import all_ssreflect all_algebra.
 From Charon Require Import Tbls.Shamir Codec.LockConsistent.
+From Coq Require Import List NArith Bool String.
+From Charon Require Import Codec.SszTree Codec.HashProg Codec.HashProgFacts Codec.ClusterHash gen.HashProgs.
 Import ListNotations.
 
 (* For every well-formed hash program: equal roots (of two definitions / locks on which the Go hash
@@ -26,7 +26,7 @@ Import ListNotations.
 Theorem C12_root_injective :
   forall (H : chunk -> chunk -> chunk) (Z : nat -> chunk), collision_free H ->
   forall p e1 e2 r, wf p = true -> dom p e1 = true -> dom p e2 = true ->
-    root H Z p e1 = Some r -> root H Z p e2 = Some r -> fields p e1 = fields p e2.
+    HashProg.root H Z p e1 = Some r -> HashProg.root H Z p e2 = Some r -> fields p e1 = fields p e2.
 Proof. exact root_injective. Qed.
 Print Assumptions C12_root_injective.
 
@@ -121,7 +121,29 @@ Theorem C12_signature_shift_collision_v1_4 : collides prog_def_v1_4 /\ collides 
 Proof. exact signature_shift_collision_v1_4. Qed.
 Print Assumptions C12_signature_shift_collision_v1_4.
 
-(* The domain premise of the lock theorems of v1.7 - v1.11 cannot be dropped (finding F12): the
+(* REFUTED up to v1.4 (harness finding legacy-address-shift): the single fee-recipient / withdrawal
+   address pair is hashed by calls that append nothing for an empty address, so "only a fee
+   recipient A" and "only a withdrawal address A" collide in every hash; for the v1.3/v1.4 config
+   hash this is exactly the part of the input space that the domain premise excludes. *)
+Theorem C12_address_shift_collision :
+  collides prog_config_v1_3 /\ collides prog_def_v1_3 /\ collides prog_config_v1_4 /\ collides prog_def_v1_4 /\
+  collides prog_config_v1_0 /\ collides prog_config_v1_1 /\ collides prog_config_v1_2 /\
+  dom prog_config_v1_3 (addr_def addrA []) = false.
+Proof. exact address_shift_collision. Qed.
+Print Assumptions C12_address_shift_collision.
+
+(* What tamper evidence does NOT cover for addresses from v1.5 on (their canonical observation is
+   the 20 decoded bytes, the empty string counting as 20 zero bytes): "" and the zero address hash
+   alike (harness finding empty-address-equals-zero-address), and so do the hex spellings. *)
+Theorem C12_address_canonical_gaps :
+  fields (PutHex20 ["a"%string]) (addr_env []) = fields (PutHex20 ["a"%string]) (addr_env zero_address_ascii) /\
+  (forall H Z, interp H Z (PutHex20 ["a"%string]) (addr_env []) = interp H Z (PutHex20 ["a"%string]) (addr_env zero_address_ascii)) /\
+  fields (PutHex20 ["a"%string]) (addr_env (48 :: 120 :: repeat 97 40)%N) = fields (PutHex20 ["a"%string]) (addr_env (48 :: 120 :: repeat 65 40)%N) /\
+  fields (PutHex20 ["a"%string]) (addr_env (48 :: 120 :: repeat 97 40)%N) = fields (PutHex20 ["a"%string]) (addr_env (repeat 97 40)%N).
+Proof. exact address_canonical_gaps. Qed.
+Print Assumptions C12_address_canonical_gaps.
+
+(* The domain premise of the lock theorems of v1.7 - v1.11 cannot be dropped (harness finding registration-fee-recipient-padding): the
    builder registration's fee recipient is hashed by a bare PutBytes, a 21-byte value ending in 00
    has the root of the 20-byte one. *)
 Theorem C12_registration_padding_collision :
@@ -141,7 +163,7 @@ Theorem C12_public_shares_recombine :
   forall (F : fieldType) (G1 : lmodType F) (x : nat -> F) (n t : nat),
   ids_distinct x (iota 0 n) -> ids_nonzero x (iota 0 n) ->
   forall (dv : G1) (y : nat -> G1), vsr_check x dv y n t ->
-  forall js, uniq js -> {subset js <= iota 0 n} -> (t <= size js)%N -> recover x js y = dv.
+  forall js, uniq js -> {subset js <= iota 0 n} -> leq t (size js) -> recover x js y = dv.
 Proof. exact public_shares_recombine. Qed.
 Print Assumptions C12_public_shares_recombine.
 
@@ -149,8 +171,8 @@ Theorem C12_lock_consistent :
   forall (F : fieldType) (G1 : lmodType F) (g1 : G1) (x : nat -> F) (n t : nat),
   ids_distinct x (iota 0 n) -> ids_nonzero x (iota 0 n) ->
   forall (dv : G1) (y : nat -> G1) (s : nat -> F),
-  vsr_check x dv y n t -> (forall i, (i < n)%N -> pk g1 (s i) = y i) ->
-  forall js, uniq js -> {subset js <= iota 0 n} -> (t <= size js)%N ->
+  vsr_check x dv y n t -> (forall i, leq (S i) n -> pk g1 (s i) = y i) ->
+  forall js, uniq js -> {subset js <= iota 0 n} -> leq t (size js) ->
   recover x js y = dv /\ pk g1 (recover_secret x js s) = dv.
 Proof. exact lock_consistent. Qed.
 Print Assumptions C12_lock_consistent.
